@@ -16,7 +16,8 @@
 
   The grammar is over kinds, so it cannot say which identifiers are simple type names; that is done by the value
   level below: `yieldT` maps a tree to the (unique) sequence of token descriptions it stands for, `Match` relates such
-  a sequence to real tokens, `wf` is the only side condition a parser-built tree satisfies beyond its yield.
+  a sequence to real tokens, `wf` is the only side condition a parser-built tree satisfies beyond its yield
+  (a one-identifier type that spells a scalar type name is that `SimpleType`, not a `NamedType`).
 -/
 import MF.Model.TypeParse
 namespace MF.TypeG
@@ -133,25 +134,21 @@ end
 def simpleOf (name : Bytes) : Option Bytes := simpleTypes.find? (fun n => Char.equalFold name n)
 
 mutual
-/-- the side condition on trees: a `NamedType` has a non-empty path whose FIRST identifier does not read as a simple
-type name (memefish decides `SimpleType` vs `NamedType` on the first identifier alone) -/
+/-- the side condition on trees: a `NamedType` has a non-empty path, and a ONE-component path does not read as a simple
+type name (an identifier spelled like a scalar type and not followed by `.` IS that `SimpleType`, which is right:
+`DATE` is the date type, `date.T` is the named type `T` of package `date`).  Paths of two or more components are
+unrestricted: memefish decides `SimpleType` vs `NamedType` on the first identifier AND the token after it. -/
 def wf : Ty → Bool
   | .simple _ _ => true
   | .named path => match path with
     | [] => false
-    | a :: _ => (simpleOf a.name).isNone
+    | [a] => (simpleOf a.name).isNone
+    | _ :: _ :: _ => true
   | .array _ _ item => wf item
   | .struct _ _ fs => wfs fs
 def wfs : Fields → Bool
   | .nil => true
   | .cons _ t rest => wf t && wfs rest
 end
-
-/-- the token-level side condition of completeness: no identifier that reads as a simple type name is the FIRST
-component of a dotted path (i.e. is followed by `.` without being preceded by one).  memefish rejects such paths
-(`string.x`, `STRUCT<a date.t>`), G_T derives them. -/
-def HeadsOK (toks : List Token) : Prop :=
-  ∀ l a b r, toks = l ++ a :: b :: r → a.kind = .ident → (simpleOf a.asString).isSome = true → b.kind = K "." →
-    ∃ l' c, l = l' ++ [c] ∧ c.kind = K "."
 
 end MF.TypeG
